@@ -13,17 +13,17 @@ NOTES = ("Technique: deterministic simulation with fault injection. One integer 
          "under replays/<id>/ and replayed with ./check replay <file>. known_findings.json lists recorded and fixed defects.")
 
 CHECKS = [
-    {'id': 'C19', 'level': 'fault_enumeration', 'design_ref': 'DESIGN.md section 2, C19',
-     'technique': 'deterministic simulation: seeded collation/generator/thread histories with injected setlocale failures over stub locale+lock seams; world invariants + pristine-process differential',
-     'text': 'Seeded search over histories of collation evaluations, interleaved lazy generators and thread schedules under per-run installed-locale sets and injected locale.Error faults; after every operation the lock/locale/decimal/environ invariants and a pristine-process differential are checked, and a fault-free recovery probe ends each run. Sampling, not proof.',
-     'note': 'Trusts the stub locale database (orderings are not glibc), Python-line pre-emption granularity, and the canonical result form.'},
+    {'id': 'C19', 'level': 'fault_enumeration', 'design_ref': 'DESIGN.md section 2, C19; section 5',
+     'technique': 'deterministic simulation with fault injection: seeded collation/generator histories with injected setlocale failures over stub locale+lock seams; real threads under a seeded baton scheduler (pre-emption at every line event) judged by evaluation-level serialisability; environment sentinels and entity documents',
+     'text': 'Three arms. (a) histories of collation evaluations and interleaved, closed, abandoned lazy generators under per-run installed-locale sets and injected locale.Error faults: after every operation the lock/locale/decimal/environ invariants and a pristine-process differential are checked, a fault-free recovery probe ends each run. (b) 2-4 real threads evaluating independent Selectors under a seeded baton scheduler (uniform, PCT and seam-biased strategies): every result vector must be explained by some sequential order of the whole evaluations (enumerated in pristine processes), and nothing may stay locked, switched or blocked. (c) planted environment sentinels must never be observable with default settings and XML texts declaring entities (also behind comments/PIs/BOM) must be rejected, never expanded. Seeded sampling, not proof.',
+     'note': 'Trusts the stub locale database (orderings are not glibc), Python-line pre-emption granularity (races inside C code are out of reach), the canonical result form.'},
     {'id': 'C15', 'level': 'exploration', 'design_ref': 'DESIGN.md section 2, C15',
      'technique': 'deterministic simulation: seeded operation histories over a pool of aliasing map/array values, persistent reference model, re-observation of every pool member after every operation',
      'text': 'Seeded histories of map:*/array:* functions, constructors and lookups over a pool of values that alias each other (results re-enter the pool as the same objects and are passed back through variables). After every operation the result, observed through the public functions, is compared with a persistent dict/list model and every pool member is re-observed for immutability; failing operations are part of the histories.',
      'note': 'Trusts the reference model (same-key relation by exact numeric value / code points / type+value) and compares map keys by same-key class rather than representation.'},
-    {'id': 'C16', 'level': 'exploration', 'design_ref': 'DESIGN.md section 2, C16',
-     'technique': 'deterministic simulation: seeded call histories (order, multiplicity, nesting, cross-evaluation, Python-level calls) on function items, judged by a reference interpreter with immutable closures',
-     'text': 'Typed random programs over a mini-language create function items inside let/for scopes, store them in sequences/arrays/maps, apply them partially and pass them to the higher-order functions; Selectors producing function items are evaluated repeatedly under different bindings and the items are called later from Python. Every value is compared with a reference interpreter in which closures are immutable, so sharing of state between items, calls or evaluations shows as a mismatch.',
+    {'id': 'C16', 'level': 'exploration', 'design_ref': 'DESIGN.md section 2, C16; section 5',
+     'technique': 'deterministic simulation: seeded call histories (order, multiplicity, nesting, cross-evaluation, Python-level calls) on function items judged by a reference interpreter with immutable closures; stable-sort histories on reused sort expressions',
+     'text': 'Typed random programs over a mini-language create function items inside let/for scopes, store them in sequences/arrays/maps, apply them partially (inline, named and built-in functions, partial applications applied again) and pass them to the higher-order functions; Selectors producing function items are evaluated repeatedly under different bindings and the items are called later from Python; named references to focus-dependent functions are called after the focus moved on. Every value is compared with a reference interpreter in which closures are immutable. A second arm checks that fn:sort is a stable ordered permutation on inputs that are equal as Python objects but different XPath values, with key functions and a case-insensitive collation.',
      'note': 'Trusts the reference interpreter (integers, booleans, flat sequences, the listed HOFs); programs are well-typed by construction.'},
     {'id': 'C05', 'level': 'exploration', 'design_ref': 'DESIGN.md section 2, C05',
      'technique': 'deterministic simulation: seeded evaluation histories over shared Selectors/tokens/documents/variable values with interleaved and abandoned generators, failing evaluations, clock and timezone changes; clean-room differential forked from the current process + input snapshots; scoping programs vs reference interpreter',
@@ -33,10 +33,10 @@ CHECKS = [
      'technique': 'deterministic simulation: seeded parse-call histories on pooled parser instances with asynchronous crash points, I/O / locale / recursion-limit fault injection over stub fs/net/locale seams, step-budget hang and lock deadlock verdicts',
      'text': 'Histories of parse / parse+evaluate calls on one parser instance with failures at arbitrary points (syntax errors from mutated, random and deep sources; an injected asynchronous exception at the k-th line event). After every operation the used instance, a fresh instance and a pristine-process reference must agree on a probe set. Every exception leaving the API that is not an ElementPathError is a violation, as is a step-budget overrun (HANG) or a blocked lock (DEADLOCK). Fault arms: per-resource faults of a virtual filesystem/network under fn:json-doc / fn:unparsed-text*, injected setlocale failures under collation functions, reduced recursion limits.',
      'note': 'The for-every-input-string clause is input fuzzing riding on the histories. Step budgets count line events inside elementpath only. Injected crashes are deferred out of finally bodies/__exit__.'},
-    {'id': 'C13', 'level': 'exploration', 'design_ref': 'DESIGN.md section 2, C13',
-     'technique': 'deterministic simulation: seeded mutation histories on aliasing UnicodeSubset/CharacterClass objects vs a 0x110000-bit bitset model; install_unicode_data histories with simulated download faults and exhaustive table comparison with unicodedata',
-     'text': 'Histories of set operations (aimed at the overlap geometries of the current representation, with operands that are other pool members, the object itself or the shared global table objects) are compared bit for bit with a big-integer model; canonical form, extensional equality, operand immutability and absence of aliasing into the global tables are checked after every step. A second arm installs Unicode data versions (also from a simulated URL with failing and torn downloads) and checks the tables exhaustively against unicodedata, structural invariants for every version, failed-install atomicity and cache invalidation.',
-     'note': 'Category model is the running interpreter\'s unicodedata; versions other than the interpreter\'s are checked structurally only.'},
+    {'id': 'C13', 'level': 'exploration', 'design_ref': 'DESIGN.md section 2, C13; section 5',
+     'technique': 'deterministic simulation with fault injection: seeded mutation histories on aliasing UnicodeSubset/CharacterClass objects vs a 0x110000-bit bitset model; install_unicode_data histories with simulated download faults and exhaustive table comparison with unicodedata',
+     'text': 'Histories of set operations (aimed at the overlap geometries of the current representation, with operands that are other pool members, the object itself or the shared global table objects) are compared bit for bit with a big-integer model; canonical form, extensional equality, len/bool, operand immutability and absence of aliasing are checked for every object after every step. A second arm installs Unicode data versions (also from a simulated URL with failing and torn downloads) and checks the category tables exhaustively against unicodedata, structural invariants and pairwise disjoint blocks for every version, failed-install atomicity and cache invalidation.',
+     'note': "Category model is the running interpreter's unicodedata; versions other than the interpreter's are checked structurally only."},
     {'id': 'C04', 'level': 'exploration', 'design_ref': 'DESIGN.md section 2, C04',
      'technique': 'deterministic simulation over the interpreter hash seed: one fresh interpreter per seeded PYTHONHASHSEED processing the same corpus, cross-run equality of token trees/sources/values; EBNF-rendered operator trees, layout invariance and source round trip inside every run',
      'text': 'The simulated dimension is the hash seed the property names: each run is a fresh interpreter with its own PYTHONHASHSEED that builds the four parsers and processes the same seed-derived corpus; token trees, sources, round-trip trees and values must be identical across all interpreters while the tokenizer pattern text may differ (the number of distinct patterns reached is reported). Inside every run the tree must equal the operator tree the text was rendered from by the EBNF precedence/associativity tables, be invariant under whitespace/comment placement, and its source must re-parse to the same tree and value; non-associative chains must be rejected.',
